@@ -34,6 +34,12 @@ def plan(tier, seed):
     specs.append({"name": "commands", "kind": "commands", "budget_s": 100 if tier == "quick" else 600,
                   "schemes": gen.SCHEMES if tier == "thorough" else ["CJJ14.PiBas", "CJJ14.Pi2Lev", "DP17.Pi", "CT14.Pi"]})
     specs.append({"name": "big-result", "kind": "big", "budget_s": 200})
+    # configuration uploads whose websocket message is EXACTLY k * 65536 + d bytes long (d = -1, 0, 1), with a wire
+    # conservation monitor: every message one side sent was received, byte for byte, by the other
+    specs.append({"name": "wire-sizes", "kind": "wire", "budget_s": 150 if tier == "quick" else 600,
+                  "targets": [65535, 65536, 65537, 131071, 131072, 131073, 196609, 262145, 1048575, 1048576, 1048577]
+                  if tier == "quick" else
+                  [k * 65536 + d for k in (1, 2, 3, 4, 5, 8, 15, 16, 17, 32, 64) for d in (-1, 0, 1, 2)]})
     # two client services alive in ONE process, each with its own connection, asking at the same moment
     specs.append({"name": "two-clients-at-once", "kind": "pair", "budget_s": 100 if tier == "quick" else 600,
                   "rounds": 3 if tier == "quick" else 40})
@@ -496,6 +502,104 @@ async def big_one(env, server, acc, scheme, n):
         await flow.drop()
 
 
+async def wire_sizes(spec, acc, ctx):
+    """The configuration dictionary may carry keys the scheme ignores; a "note" of the right length makes the
+    upload-config message exactly as long as wanted (measured at the client's send(), re-tuned until exact).  The
+    workflow is then completed and searched; afterwards every message sent must have been received unchanged."""
+    env = wh.setup_env()
+    server = await wh.Server().start()
+    mon = wh.WireMonitor()
+    rng = ctx.rng
+    try:
+        for T in spec["targets"]:
+            if ctx.out_of_time():
+                break
+            scheme = rng.choice(["CJJ14.PiBas", "CJJ14.PiPack", "CT14.Pi", "DP17.Pi", "CJJ14.Pi2Lev"])
+            base = gen.default_config(scheme)
+            db_json = json_database(rng, scheme, base)
+            note_len = max(300, T - 2000)
+            exact = None
+            for attempt in range(6):
+                cfg = dict(base, note="n" * note_len)
+                flow = Flow(env, server, acc, scheme, cfg, db_json)
+                case = {"scheme": scheme, "wire_size_target": T, "note_length": note_len}
+                mark = mon.mark()
+                try:
+                    ok = True
+                    for name in STEPS[:3]:
+                        await flow.step(name, False)
+                    before = mon.mark()
+                    r = await flow.step("upload-config", False)
+                    sizes = mon.sent_by_client_since(before)
+                    biggest = max(sizes) if sizes else 0
+                    if biggest != T and r[0] == "ok":
+                        note_len += T - biggest
+                        await flow.drop()
+                        if note_len < 1:
+                            break
+                        continue
+                    acc.count("workflows")
+                    acc.count("wire.config_messages_of_exact_target_size")
+                    acc.add("wire.sizes_hit", T)
+                    exact = True
+                    if r[0] == "timeout":
+                        acc.count("timeouts")
+                        break
+                    if r[0] != "ok":
+                        acc.violation(f"e2e:wire-size:upload-config-failed:{r[0]}",
+                                      f"a configuration upload whose websocket message is exactly {T} bytes long was not "
+                                      f"acknowledged: {r[0]} {r[1]!r:.80}", case)
+                        break
+                    r = await flow.step("upload-index", False)
+                    if r[0] != "ok":
+                        acc.violation(f"e2e:wire-size:upload-index-failed:{r[0]}", f"after a {T}-byte configuration "
+                                      f"message: upload-index {r[0]} {r[1]!r:.80}", case)
+                        break
+                    for w in list(flow.db)[:2] + [b"absent-kw"]:
+                        r = await flow.step("search", False, keyword=w)
+                        acc.count("searches")
+                        if r[0] != "ok":
+                            acc.violation(f"e2e:wire-size:no-result-delivered:{r[0]}", f"{r[0]} {r[1]!r:.60}", case)
+                            ok = False
+                            break
+                        want = flow.db.get(w, [])
+                        acc.count("searches_compared")
+                        if (set(r[1]) != set(want)) if scheme in gen.SET_RESULT else (list(r[1]) != want):
+                            acc.violation("e2e:wire-size:wrong-result", f"result for {w!r} differs after a {T}-byte "
+                                                                        f"configuration message", case)
+                            ok = False
+                            break
+                    if ok:
+                        # the stored configuration on the server is the uploaded one
+                        try:
+                            stored = json.load(open(os.path.join(server.server_dir(flow.sid), "config.json")))
+                            if stored.get("note") != cfg["note"]:
+                                acc.violation("e2e:wire-size:stored-config-differs", f"the server stored a configuration "
+                                              f"whose note has {len(stored.get('note', ''))} characters, sent {note_len}", case)
+                        except Exception as e:
+                            acc.note(f"wire-sizes: could not read the stored configuration: {exc_site(e)}")
+                        await asyncio.sleep(0.05)
+                        lost = mon.missing(mark)
+                        acc.count("wire.messages_checked_for_conservation", mon.mark()[0] - mark[0])
+                        if lost:
+                            acc.violation("e2e:wire:message-not-received-as-sent",
+                                          f"{len(lost)} message(s) were sent and not received byte for byte by the peer: "
+                                          f"{lost[:3]}", case)
+                        acc.add("distinct", fp("wire", scheme, T))
+                    break
+                except Exception as e:
+                    acc.violation(f"e2e:wire-size:raised:{exc_site(e)}", f"{type(e).__name__}: {e}", case)
+                    break
+                finally:
+                    await flow.drop()
+            if not exact:
+                acc.count("wire.target_not_reached")
+                acc.note(f"wire-sizes: could not tune a configuration message to exactly {T} bytes")
+    finally:
+        mon.uninstall()
+        await server.stop()
+
+
 def real_processes(spec, acc, ctx):
     """Thorough only: server as a real subprocess (SIGKILLed and restarted after the upload), every client step a
     separate process running the real run_client-level commands."""
@@ -589,6 +693,8 @@ def run_shard(spec, acc, ctx):
         asyncio.run(big_result(spec, acc, ctx))
     elif k == "pair":
         asyncio.run(two_clients(spec, acc, ctx))
+    elif k == "wire":
+        asyncio.run(wire_sizes(spec, acc, ctx))
     elif k == "procs":
         real_processes(spec, acc, ctx)
     acc.count("cases", acc.counters.get("workflows", 0) + acc.counters.get("command_workflows", 0) +
@@ -623,9 +729,14 @@ def finish(m, tier, seed):
         inc.append(f"{c.get('timeouts')} waits ended without result or closure")
     if c.get("server_restarts", 0) < 9:
         inc.append("fewer than 9 server restarts exercised")
+    if c.get("wire.config_messages_of_exact_target_size", 0) < 6:
+        inc.append("fewer than 6 configuration messages of an exact k*65536+d size were delivered")
     if c.get("command_searches", 0) < 8 or c.get("big_result_workflows", 0) < 1:
         inc.append("commands layer / big-result workflow not exercised")
     cov = {
+        "wire": {"config_messages_of_exact_size": c.get("wire.config_messages_of_exact_target_size", 0),
+                 "sizes": sorted(m["sets"].get("wire.sizes_hit", [])),
+                 "messages_checked_for_conservation": c.get("wire.messages_checked_for_conservation", 0)},
         "evaluations": c.get("cases", 0),
         "distinct_nontrivial": len(m["sets"].get("distinct", [])),
         "rule": "case = one complete workflow of the real client against the real server (nine schemes): all 32 subsets "
